@@ -8,12 +8,14 @@ package interp
 
 import (
 	"go/types"
+	"strconv"
 )
 
 type tlsState struct {
 	inner     iface
 	handshook bool
 	failed    bool
+	id        int // creation index on this path: distinguishes the connection states of different connections
 }
 
 func (fr *frame) tlsOf(p value) *tlsState {
@@ -37,7 +39,7 @@ func init() {
 		fr.i.noteAssumption("crypto/tls is a model: 2-byte hello exchange, then a pass-through byte stream; handshake outcome and negotiated protocol chosen by the harness")
 		cell := zero(fr.i.namedType("crypto/tls", "Conn"))
 		p := &cell
-		fr.i.ctx.tlsConns[p] = &tlsState{inner: args[0].(iface)}
+		fr.i.ctx.tlsConns[p] = &tlsState{inner: args[0].(iface), id: len(fr.i.ctx.tlsConns) + 1}
 		return p
 	}
 	externals["crypto/tls.Client"] = externals["crypto/tls.Server"]
@@ -51,7 +53,7 @@ func init() {
 		}
 		cell := zero(fr.i.namedType("crypto/tls", "Conn"))
 		p := &cell
-		fr.i.ctx.tlsConns[p] = &tlsState{inner: t, handshook: true}
+		fr.i.ctx.tlsConns[p] = &tlsState{inner: t, handshook: true, id: len(fr.i.ctx.tlsConns) + 1}
 		return tuple{p, nilError()}
 	}
 	externals[vfPkg+".TLSDialTarget"] = func(fr *frame, args []value) value {
@@ -102,6 +104,9 @@ func init() {
 				cs[k] = fr.i.ctx.tlsProto
 			case "Version":
 				cs[k] = uint16(0x0303)
+			case "ServerName":
+				// stands for everything that is specific to one connection's state
+				cs[k] = "tls-model-conn-" + strconv.Itoa(fr.tlsOf(args[0]).id)
 			}
 		}
 		return cs
